@@ -19,6 +19,42 @@ def subapStr (s : Subap Float) : String :=
 def pairs (a : Array Float) : List (Float × Float) :=
   (List.range (a.size / 2)).map fun k => (a.getD (2 * k) nanF, a.getD (2 * k + 1) nanF)
 
+/-! ### the tie refinement of `circle` (fix bdc31f8), at `Float`
+
+`radius * radius` is rounded; where the rounded product EQUALS the (exactly computed) squared distance of a pixel the code decides
+`x² + y² ≤ r²` in exact arithmetic (Python fractions).  At an ordered field that is the predicate `Model.Pupil.inside` itself, so the
+theorems are untouched; at `Float` the driver does the same: the doubles are decoded into `mantissa · 2^exponent` and compared as integers. -/
+
+/-- a finite double as `(m, e)` with value `m · 2^e` -/
+def ratParts (x : Float) : Int × Int :=
+  let b : Nat := x.toBits.toNat
+  let sign : Nat := b / 2 ^ 63
+  let ex : Nat := (b / 2 ^ 52) % 2048
+  let fr : Nat := b % 2 ^ 52
+  let m : Nat := if ex = 0 then fr else fr + 2 ^ 52
+  let e : Int := (if ex = 0 then (1 : Int) else Int.ofNat ex) - 1075
+  (if sign = 1 then -(m : Int) else (m : Int), e)
+
+/-- `x² + y² ≤ r²` for finite doubles, exactly -/
+def exactLE (x y r : Float) : Bool :=
+  let (mx, ex) := ratParts x
+  let (my, ey) := ratParts y
+  let (mr, er) := ratParts r
+  let emin := min (2 * ex) (min (2 * ey) (2 * er))
+  let sh (e : Int) : Nat := (2 * e - emin).toNat
+  decide (mx * mx * (2 : Int) ^ sh ex + my * my * (2 : Int) ^ sh ey ≤ mr * mr * (2 : Int) ^ sh er)
+
+/-- `circle` at `Float`, as the code evaluates it: the rounded comparison, ties decided exactly -/
+def insideF (r : Float) (n : Nat) (cx cy : Float) (middle : Bool) (i j : Nat) : Bool :=
+  let x : Float := offset middle n cx j
+  let y : Float := offset middle n cy i
+  let d2 := x * x + y * y
+  let rr := r * r
+  if d2 == rr && d2.isFinite then exactLE x y r else decide (d2 ≤ rr)
+
+def circleBitsF (r : Float) (n : Nat) (cx cy : Float) (middle : Bool) : List Bool :=
+  (List.range n).flatMap fun i => (List.range n).map fun j => insideF r n cx cy middle i j
+
 /--
 * `circle <r> <n> <cx> <cy> <middle 0|1>` → `n*n` characters `0`/`1`, row-major
 * `round <x>` → `int(round(x))`
@@ -36,7 +72,7 @@ def handle (args : List String) : Option String :=
       let cx ← parseFloat? cx
       let cy ← parseFloat? cy
       let mid ← bool? mid
-      pure (bitsStr (circleBits r n cx cy mid))
+      pure (bitsStr (circleBitsF r n cx cy mid))
   | ["round", x] => do
       let x ← parseFloat? x
       pure (toString (roundHE x))
